@@ -281,7 +281,7 @@ func prefixsetEngine() engine {
 		name:   "prefixset",
 		gen:    genPrefixCase,
 		eval:   prefixEval,
-		budget: func(o *common.Options) int { return o.Budget(400, 20000) },
+		budget: func(o *common.Options) int { return o.Budget(400, 10000) },
 		batch:  200,
 		directed: func(o *common.Options) []Case {
 			return []Case{
